@@ -922,6 +922,18 @@ impl AWorker {
                 f.v(O_API, -1, "includes_key:wrong", format!("includes_key(k{ki}={}) gives {:?} but the model says {}", show(k), r, exp.is_some()));
             }
         }
+        // entries of the start image outside the alphabet: no call ever names them, they must keep their values
+        for (k, v) in cfg.extras.iter().take(64) {
+            let r = guard(|| m.get(&k[..]));
+            f.c("api_reads", 1);
+            if r != Out::Ok(Some(v.clone())) {
+                let got = match &r {
+                    Out::Ok(g) => format!("returned {}", g.as_ref().map(|v| show(v)).unwrap_or("None".into())),
+                    _ => r.failed().unwrap_or_default(),
+                };
+                f.v(O_API, -1, &format!("get-untouched:{}", if r.is_ok() { "wrong-result".to_string() } else { fail_key(&r) }), format!("get of the untouched entry {} {} but it was stored with {} and never updated", show(k), got, show(v)));
+            }
+        }
         for k in cfg.absent.iter() {
             let exp = model.get(k).cloned();
             let r = guard(|| m.get(&k[..]));
